@@ -5,7 +5,6 @@ package html
 import (
 	"bytes"
 	"fmt"
-	"os"
 	"reflect"
 	"regexp"
 	"runtime"
@@ -202,21 +201,27 @@ func TestVerif_C41(t *testing.T) {
 				}
 				tok = fmt.Sprintf("%v %q", ps.tok.Type, ps.tok.Data)
 			}
-			hint := ""
-			if ps != nil && len(ps.oe) == 0 {
-				hint = "-with-empty-stack"
+			// White-box classification, so that each known root cause gets its own key and
+			// anything else stays visible under a different one.
+			rootPopped := ps != nil && ps.fragment && (len(ps.oe) == 0 || ps.oe[0] != ps.doc.FirstChild)
+			key := "parse-error-" + verifSlug(err.Error()) + "-in-" + where
+			switch {
+			case ps != nil && ps.fragment && ps.context == nil && ps.tok.Type == StartTagToken && (ps.tok.DataAtom == atom.Select || ps.tok.DataAtom == atom.Input) && strings.Contains(err.Error(), "nil pointer"):
+				key = "parse-panic-nil-context-select-check"
+			case rootPopped && ctx.NS != "":
+				key = "parse-panic-root-popped-foreign-context"
+			case rootPopped && ctx.Tag == "head" && ctx.NS == "":
+				key = "parse-panic-root-popped-head-context"
+			case ctx.Tag == "head" && ctx.NS == "" && strings.Contains(err.Error(), "new current node will be a head element"):
+				key = "parse-panic-head-context-noscript-assertion"
+			case rootPopped:
+				key += "-root-popped"
 			}
-			if ps != nil && ps.fragment && ps.context == nil && ps.tok.Type == StartTagToken && (ps.tok.DataAtom == atom.Select || ps.tok.DataAtom == atom.Input) && strings.Contains(err.Error(), "nil pointer") {
-				hint, where = "-nil-context-select-check", "inBodyIM"
+			nOpen := -1
+			if ps != nil {
+				nOpen = len(ps.oe)
 			}
-			if os.Getenv("HTMLC41_EXPLORE") != "" {
-				cd := ctx.Tag + "/" + ctx.NS
-				if ctx.Document {
-					cd = "DOCUMENT"
-				}
-				r.Event("viol:"+verifSlug(err.Error())+"-in-"+where+hint+"@"+cd+fmt.Sprintf("@%v:%s", ps.tok.Type, ps.tok.DataAtom), 1)
-			}
-			c.Violation("parse-error-"+verifSlug(err.Error())+"-in-"+where+hint, "%s: Parse returned error %q (insertion mode %s, current token %s, %d open elements) for input %q (ctx %+v, scripting %v)", stage, err, where, tok, len(ps.oe), verifClip(input, 400), ctx, scripting)
+			c.Violation(key, "%s: Parse returned error %q (insertion mode %s, current token %s, %d open elements, root popped: %v) for input %q (ctx %+v, scripting %v)", stage, err, where, tok, nOpen, rootPopped, verifClip(input, 400), ctx, scripting)
 			return nil, false
 		}
 		if ctx.Document && len(roots) != 1 {
@@ -239,7 +244,29 @@ func TestVerif_C41(t *testing.T) {
 		var buf bytes.Buffer
 		for _, root := range roots {
 			if err := Render(&buf, root); err != nil {
-				c.Violation("render-fails-"+verifSlug(err.Error()), "%s: Render of the returned tree: %v; input %q (ctx %+v, scripting %v)", stage, err, verifClip(input, 400), ctx, scripting)
+				key := "render-fails-" + verifSlug(err.Error())
+				if strings.Contains(err.Error(), "void element") {
+					// which void-named elements have children, and in which namespace?
+					html, foreign := 0, 0
+					for n := range root.Descendants() {
+						if n.Type == ElementNode && voidElements[n.Data] && n.FirstChild != nil {
+							if n.Namespace == "" {
+								html++
+							} else {
+								foreign++
+							}
+						}
+					}
+					if root.Type == ElementNode && voidElements[root.Data] && root.FirstChild != nil && root.Namespace != "" {
+						foreign++
+					} else if root.Type == ElementNode && voidElements[root.Data] && root.FirstChild != nil {
+						html++
+					}
+					if html == 0 && foreign > 0 {
+						key = "render-fails-void-named-foreign-element-with-children"
+					}
+				}
+				c.Violation(key, "%s: Render of the returned tree: %v; input %q (ctx %+v, scripting %v)", stage, err, verifClip(input, 400), ctx, scripting)
 				return nil, false
 			}
 		}
